@@ -125,6 +125,19 @@ class Ctx:
         a, b = float(a), float(b)
         return a < b + self._tol(a, b)
 
+    def clearly_lt(self, a, b):
+        """a < b, for use as the *antecedent* of an implication: in the concrete modes it only holds with a margin, so that a
+        tie blurred by float rounding never creates an obligation."""
+        if isna(a) or isna(b):
+            return False
+        if self.sym:
+            return a < b
+        a, b = float(a), float(b)
+        return a < b - self._tol(a, b)
+
+    def clearly_gt(self, a, b):
+        return self.clearly_lt(b, a)
+
     def ge(self, a, b):
         return self.le(b, a)
 
